@@ -152,7 +152,7 @@ let () =
               (([], nm), value)) (split_on ';' (field fs 4)) in
           let ast = expr_of (parse_sx (tokenize_sx (field fs 7))) in
           let c = { cx_doc = !doc; cx_node = nat_of_int cn; cx_list = List.map nat_of_int cl; cx_vars = vars; cx_strip = (fun _ _ -> false) } in
-          match eval_top c ast with
+          match eval_this_tree c ast with   (* = eval_top while GenXpCp.v says the string functions count code units *)
           | Err _ -> Printf.printf "%s|err\n" id
           | Ok v ->
               let g = match v with
